@@ -251,6 +251,42 @@ def _cx(run, ci):
     # beam population
     fn = _m(ci, '_beam_population')
     _charged_sum(run, ci, fn, 'population_data', 'coeff', mean=True)
+    _fresh_per_iteration(run, ci, _m(ci, '_populate_cache'))
+
+
+def _fresh_per_iteration(run, ci, fn):
+    """A list that is filled inside a loop and handed on (stored in another container) once per iteration must be created in
+    that same iteration; created once outside, every stored reference is the same growing list: each excited state would be
+    weighted with the populations of all of them."""
+    run.describe('C05-R5', 'per-state population lists are created afresh for every excited state (no list shared between iterations)')
+    creations = {}
+    for st in ast.walk(fn):
+        if isinstance(st, ast.Assign) and len(st.targets) == 1 and isinstance(st.targets[0], ast.Name) and (
+                isinstance(st.value, ast.List) and not st.value.elts or (isinstance(st.value, ast.Call) and dotted(st.value.func) == 'list' and not st.value.args)):
+            creations.setdefault(st.targets[0].id, []).append(st)
+    n = 0
+    for lp in [l for l in ast.walk(fn) if isinstance(l, ast.For)]:
+        for name, cs in creations.items():
+            grows = [c for c in ast.walk(lp) if isinstance(c, ast.Call) and isinstance(c.func, ast.Attribute) and c.func.attr in ('append', 'extend')
+                     and isinstance(c.func.value, ast.Name) and c.func.value.id == name]
+            escapes = [c for c in ast.walk(lp) if isinstance(c, ast.Call) and isinstance(c.func, ast.Attribute) and c.func.attr == 'append'
+                       and not (isinstance(c.func.value, ast.Name) and c.func.value.id == name)
+                       and any(isinstance(x, ast.Name) and x.id == name for a in c.args for x in ast.walk(a))]
+            if not grows or not escapes:
+                continue
+            n += 1
+            run.subject('C05-R5')
+            inside = [c for c in cs if any(x is c for x in ast.walk(lp))]
+            if inside:
+                run.ok('C05-R5', '%s.%s list %s' % (ci.name, fn.name, name), 'created inside the loop that stores it')
+            else:
+                run.fail('C05-R5', '%s|%s|%s|shared-list:%s' % (ci.mod.name, ci.name, fn.name, name), ci.mod.relpath, escapes[0].lineno,
+                         "%s.%s stores the list '%s' once per iteration of the loop at line %d but creates it only once, outside that loop: every "
+                         "stored entry is the same list and keeps growing, so each metastable state is weighted with the populations of all of them"
+                         % (ci.name, fn.name, name, lp.lineno))
+    if n == 0:
+        run.subject('C05-R5')
+        run.undecided('C05-R5', '%s.%s' % (ci.name, fn.name), 'no per-iteration list recognised')
 
 
 def _charged_sum(run, ci, fn, data, cf_hint, mean):
@@ -402,6 +438,10 @@ _CX = 'cherab/core/model/beam/charge_exchange.pyx'
 _BE = 'cherab/core/model/beam/beam_emission.pyx'
 _PN = 'cherab/core/plasma/node.pyx'
 MUTANTS = [
+    dict(name='population-list-shared-between-states', file=_CX, edits=[
+        dict(file=_CX, find="        self._excited_beam_data = []\n        for rate in rates:", replace="        self._excited_beam_data = []\n        population_data = []\n        for rate in rates:"),
+        dict(file=_CX, find="                # obtain population coefficients for all plasma species with which the beam interacts\n                population_data = []\n", replace="")],
+        expect='C05-R5'),
     dict(name='receiver-density-instead-of-ion-density', file=_CX, find="        ion_density = self._plasma.ion_density(x, y, z)", replace="        ion_density = self._target_species.distribution.density(x, y, z)", expect='C05-R2'),
     dict(name='temperature-energy-swapped', file=_CX, find="rate = self._ground_beam_rate.evaluate(interaction_energy,\n                                               receiver_temperature,", replace="rate = self._ground_beam_rate.evaluate(receiver_temperature,\n                                               interaction_energy,", expect='C05-R2'),
     dict(name='total-population-starts-at-zero', file=_CX, find="        total_population = 1", replace="        total_population = 0", expect='C05-R1'),
